@@ -1,6 +1,7 @@
 import Proofs.C08
 import Proofs.PostLemmas
 import Liquid.Call
+import Liquid.Std
 /-!
 # A pipeline, one step at a time through `assign` (helper lemmas for `Proofs/C08Source.lean`)
 
@@ -346,3 +347,5 @@ theorem convertArgs_append (ps qs : List Param) : ∀ (args : List GoVal), args.
           first
           | (cases convertArgs ps as <;> rfl)
           | (cases convert _ t <;> simp only [Res.bind] <;> cases convertArgs ps as <;> rfl)
+
+theorem stdOut_nil : stdOut.chunks .nil = .ok [] := rfl
